@@ -441,6 +441,47 @@ theorem next_compact_difficulty_pos {P : Params} {e o : EpochExt} {hn hc u ms : 
 example : compactToDifficulty 0x1a08a8b1 = 0x1d90959b540e32 ∧ targetToCompact (2 ^ 255) = 0x20800000 ∧
     compactToTarget 0x04000001 = (0x100, false) ∧ targetToCompact 0x100 = 0x02010000 := by decide +kernel
 
+
+/-! ## epoch statistics handed to `next_epoch_ext` (`EpochProvider::get_block_epoch`)
+
+**Finding (class `epoch-duration-underflow-panics`).**  The statistics are differences of stored
+values computed with checked `u64` arithmetic.  `total_uncles_count` is monotone along a chain, but
+timestamps are not: the only lower bound on a block's timestamp is the median of the previous 37.
+`block_epoch_stats_defined` states the hypothesis under which the statistics exist,
+`epoch_duration_underflow_panics` that the code panics outside it, and
+`timestamp_rule_allows_epoch_end_before_previous_epoch_end` exhibits a chain of timestamps accepted
+by the median rule in which a 300-block epoch ends before the previous epoch ended (on mainnet this
+needs a majority of stale timestamps over a whole epoch; it is replayed on the real
+`HeaderVerifier` + `get_block_epoch` by the `header` stream, corpus/C07/header-epoch-duration-underflow.ops). -/
+
+/-- for the tail block of an epoch the statistics are the plain differences, provided the epoch's last
+block is not older than the previous epoch's last block -/
+theorem block_epoch_stats_defined {hn start len tuH tuP tsH tsP : Nat}
+    (hlen : 1 ≤ start + len) (hlt : start + len < U64) (htail : hn = start + len - 1)
+    (hu : tuP ≤ tuH) (ht : tsP ≤ tsH) :
+    getBlockEpoch hn start len tuH tuP tsH tsP = some (some (tuH - tuP, tsH - tsP)) := by
+  unfold getBlockEpoch chk64 chk subChk
+  simp [hlt, hlen, htail, hu, ht]
+
+/-- outside that hypothesis `get_block_epoch` (hence `next_epoch_ext`) panics — for *every* such input -/
+theorem epoch_duration_underflow_panics {hn start len tuH tuP tsH tsP : Nat}
+    (htail : hn = start + len - 1) (ht : tsH < tsP) :
+    getBlockEpoch hn start len tuH tuP tsH tsP = none := by
+  unfold getBlockEpoch chk64 chk subChk
+  have : ¬ (tsP ≤ tsH) := by omega
+  by_cases h1 : start + len < U64 <;> by_cases h2 : 1 ≤ start + len <;> by_cases h3 : tuP ≤ tuH <;>
+    simp [h1, h2, h3, htail, this]
+
+/-- timestamps (oldest first) of 338 blocks: blocks 0..36 one millisecond apart, block 37 (the last of an
+epoch) far ahead, blocks 38..337 (a whole 300-block epoch) continuing one millisecond apart -/
+def decreasingEpochEndChain : List Nat := (List.range 37).map (· + 1) ++ [1000000] ++ (List.range 300).map (· + 38)
+
+/-- the median-of-37 timestamp rule does not exclude it -/
+theorem timestamp_rule_allows_epoch_end_before_previous_epoch_end :
+    chainTimestampsOk 37 [] decreasingEpochEndChain = true ∧ decreasingEpochEndChain.length = 338 ∧
+      decreasingEpochEndChain.getD 37 0 = 1000000 ∧ decreasingEpochEndChain.getD 337 0 = 337 := by
+  decide +kernel
+
 /-! ## proof of work -/
 
 /-- `pow_accept_iff_le_target`: a header is accepted iff its compact target decodes to a non-zero,
@@ -453,5 +494,17 @@ theorem pow_accept_iff_le_target (compact digest : Nat) :
 
 example : powVerify 0x20800000 (2 ^ 255) = true ∧ powVerify 0x20800000 (2 ^ 255 + 1) = false ∧
     powVerify 0x21000001 0 = false ∧ powVerify 0x01000000 0 = false := by decide +kernel
+
+/-- `HeaderVerifier` (PoW, parent, number, epoch stages) accepts a header iff the digest does not
+exceed a valid target, the parent is known, the number is the parent's + 1 and the epoch field is the
+next position after the parent's. -/
+theorem header_accept_iff (compact digest : Nat) (known : Bool) (pn hn pe he : Nat) (hpn : pn + 1 < U64) :
+    headerVerify compact digest known pn hn pe he = some .ok ↔
+      powVerify compact digest = true ∧ known = true ∧ hn = pn + 1 ∧ epochVerify pe he = .ok := by
+  unfold headerVerify chk64 chk
+  cases hp : powVerify compact digest <;> cases known <;> simp [hpn]
+  by_cases hnum : hn = pn + 1
+  · cases he' : epochVerify pe he <;> simp [hnum]
+  · cases he' : epochVerify pe he <;> simp [hnum]
 
 end CkbVerif.C07
